@@ -151,6 +151,8 @@ func (mw *msgWriter) Write(p []byte) (_ int, err error) {
 		return 0, fmt.Errorf("failed to write: %w", err)
 	}
 	defer mw.writeMu.unlock()
+	verifUse(mw.c, "msgWriter.Write", true, mw.flateWriter)
+	defer verifUse(mw.c, "msgWriter.Write", false, mw.flateWriter)
 
 	if mw.closed {
 		return 0, errors.New("cannot use closed writer")
@@ -195,6 +197,8 @@ func (mw *msgWriter) Close() (err error) {
 		return err
 	}
 	defer mw.writeMu.unlock()
+	verifUse(mw.c, "msgWriter.Close", true, mw.flateWriter)
+	defer verifUse(mw.c, "msgWriter.Close", false, mw.flateWriter)
 
 	if mw.closed {
 		return errors.New("writer already closed")
@@ -216,11 +220,13 @@ func (mw *msgWriter) Close() (err error) {
 	if mw.flate && !mw.flateContextTakeover() {
 		mw.putFlateWriter()
 	}
+	verifPoint(mw.c, "msgWriter.closed")
 	mw.mu.unlock()
 	return nil
 }
 
 func (mw *msgWriter) close() {
+	verifPoint(mw.c, "msgWriter.close")
 	if mw.c.client {
 		mw.c.writeFrameMu.forceLock()
 		putBufioWriter(mw.c.bw)
@@ -248,6 +254,9 @@ func (c *Conn) writeFrame(ctx context.Context, fin bool, flate bool, opcode opco
 		return 0, err
 	}
 	defer c.writeFrameMu.unlock()
+	verifPoint(c, "writeFrame.locked")
+	verifUse(c, "writeFrame", true, c.bw)
+	defer verifUse(c, "writeFrame", false, c.bw)
 
 	select {
 	case <-c.closed:
@@ -290,12 +299,14 @@ func (c *Conn) writeFrame(ctx context.Context, fin bool, flate bool, opcode opco
 	if err != nil {
 		return 0, err
 	}
+	verifPoint(c, "writeFrame.header")
 
 	n, err := c.writeFramePayload(p)
 	if err != nil {
 		return n, err
 	}
 
+	verifPoint(c, "writeFrame.payload")
 	if c.writeHeader.fin {
 		err = c.bw.Flush()
 		if err != nil {
@@ -303,6 +314,7 @@ func (c *Conn) writeFrame(ctx context.Context, fin bool, flate bool, opcode opco
 		}
 	}
 
+	verifPoint(c, "writeFrame.flushed")
 	select {
 	case <-c.closed:
 		if opcode == opClose {
